@@ -5,10 +5,35 @@ From Verif Require Import Common C11_Model C11_Spec.
 
 (* ------------------------------------------------------------------ generic *)
 
+Lemma ct_eqb_eq a b : ct_eqb a b = true <-> a = b.
+Proof. apply bytes_eqb_eq. Qed.
+Lemma ct_eqb_refl a : ct_eqb a a = true.
+Proof. now apply ct_eqb_eq. Qed.
+Lemma ct_eqb_neq a b : ct_eqb a b = false <-> a <> b.
+Proof.
+  split.
+  - intros H E. apply ct_eqb_eq in E. rewrite E in H. discriminate.
+  - intros H. destruct (ct_eqb a b) eqn:E; [|reflexivity]. apply ct_eqb_eq in E. contradiction.
+Qed.
+Lemma ct_eqb_sym a b : ct_eqb a b = ct_eqb b a.
+Proof.
+  destruct (ct_eqb b a) eqn:E.
+  - apply ct_eqb_eq in E. subst. apply ct_eqb_refl.
+  - apply ct_eqb_neq. apply ct_eqb_neq in E. auto.
+Qed.
+Lemma ct_eq_dec (a b : ct) : {a = b} + {a <> b}.
+Proof. apply list_eq_dec, N.eq_dec. Qed.
+Lemma mem_ct_In c l : mem_ct c l = true <-> In c l.
+Proof.
+  unfold mem_ct. rewrite existsb_exists. split.
+  - intros [y [Hy E]]. apply ct_eqb_eq in E. now subst.
+  - intros H. exists c. split; [assumption | apply ct_eqb_refl].
+Qed.
+
 Lemma upd_same V k (v : V) f : upd k v f k = v.
-Proof. unfold upd. now rewrite N.eqb_refl. Qed.
+Proof. unfold upd. now rewrite ct_eqb_refl. Qed.
 Lemma upd_other V k k' (v : V) f : k' <> k -> upd k v f k' = f k'.
-Proof. unfold upd. intros H. apply N.eqb_neq in H. now rewrite H. Qed.
+Proof. unfold upd. intros H. apply ct_eqb_neq in H. now rewrite H. Qed.
 
 Lemma NoDup_snoc A (l : list A) x : NoDup l -> ~ In x l -> NoDup (l ++ [x]).
 Proof.
@@ -58,7 +83,7 @@ Qed.
 Lemma pair_eqb_eq p q : pair_eqb p q = true <-> p = q.
 Proof.
   destruct p as [a b], q as [c d]. unfold pair_eqb. simpl.
-  rewrite andb_true_iff, !N.eqb_eq. split; [intros [-> ->]; reflexivity | intros H; inversion H; auto].
+  rewrite andb_true_iff, ct_eqb_eq, N.eqb_eq. split; [intros [-> ->]; reflexivity | intros H; inversion H; auto].
 Qed.
 
 Lemma existsb_pair p l : existsb (pair_eqb p) l = true <-> In p l.
@@ -85,17 +110,17 @@ Qed.
 Lemma has_binding_In c l : has_binding c l = true <-> exists i, In (c, i) l.
 Proof.
   unfold has_binding. rewrite existsb_exists. split.
-  - intros [[c' i] [H E]]. simpl in E. apply N.eqb_eq in E. subst. eauto.
-  - intros [i H]. exists (c, i). split; [assumption | apply N.eqb_refl].
+  - intros [[c' i] [H E]]. simpl in E. apply ct_eqb_eq in E. subst. eauto.
+  - intros [i H]. exists (c, i). split; [assumption | apply ct_eqb_refl].
 Qed.
 
 (* ------------------------------------------------------------------ the invariant *)
 
 Section SM.
-  Variable valid : N -> bool.
+  Variable valid : ct -> bool.
 
   (* Entries[c] against the registry and the cron entries *)
-  Definition okc (cr : list (N * N)) (reg : list (N * N)) (c : N) (en : option (N * list N)) : Prop :=
+  Definition okc (cr : list (N * ct)) (reg : list (ct * N)) (c : ct) (en : option (N * list N)) : Prop :=
     match en with
     | None => forall i, ~ In (c, i) reg
     | Some (eid, ids) =>
@@ -103,7 +128,7 @@ Section SM.
         /\ (if valid c then In (eid, c) cr else eid = 0%N)
     end.
 
-  Definition Inv (s : sm) (reg : list (N * N)) : Prop :=
+  Definition Inv (s : sm) (reg : list (ct * N)) : Prop :=
     (forall c, okc (cron s) reg c (entries s c))
     /\ (forall e c, In (e, c) (cron s) -> valid c = true /\ exists ids, entries s c = Some (e, ids))
     /\ NoDup (map fst (cron s))
@@ -130,7 +155,7 @@ Section SM.
     - constructor.
   Qed.
 
-  Lemma pair_neq_c (c c0 i i0 : N) : c <> c0 -> (c, i) <> (c0, i0).
+  Lemma pair_neq_c (c c0 : ct) (i i0 : N) : c <> c0 -> (c, i) <> (c0, i0).
   Proof. intros H E. inversion E. contradiction. Qed.
 
   Lemma Inv_add s reg c0 i0 : Inv s reg -> Inv (sm_add valid s c0 i0) (reg_add (c0, i0) reg).
@@ -150,7 +175,7 @@ Section SM.
         { intros H. apply mem_N_In in H. rewrite H in M. discriminate. }
         unfold set_add. rewrite M. unfold Inv. cbn [entries cron next].
         split; [|split; [|split; assumption]].
-        * intros c. destruct (N.eq_dec c c0) as [->|Hcc].
+        * intros c. destruct (ct_eq_dec c c0) as [->|Hcc].
           -- rewrite upd_same. unfold okc. repeat split.
              ++ intros H. destruct ids; discriminate.
              ++ apply NoDup_snoc; assumption.
@@ -162,7 +187,7 @@ Section SM.
           -- rewrite upd_other by assumption. apply (okc_other _ _ _ _ _ _ (Ha c)); [|auto].
              intros i. rewrite In_reg_add. split; [intros [H|H]; [exfalso; revert H; now apply pair_neq_c | assumption] | tauto].
         * intros e c Hec. destruct (Hb e c Hec) as [Hv [ids1 He]]. split; [assumption|].
-          destruct (N.eq_dec c c0) as [->|Hcc].
+          destruct (ct_eq_dec c c0) as [->|Hcc].
           -- rewrite E in He. inversion He; subst. rewrite upd_same. eauto.
           -- rewrite upd_other by assumption. eauto.
     - (* a new crontab *)
@@ -178,7 +203,7 @@ Section SM.
       destruct (valid c0) eqn:V; cbn iota beta; rewrite upd_same; unfold set_add; simpl mem_N;
         rewrite N.eqb_refl; cbn [orb]; unfold Inv; cbn [entries cron next].
       + split; [|split; [|split]].
-        * intros c. destruct (N.eq_dec c c0) as [->|Hcc].
+        * intros c. destruct (ct_eq_dec c c0) as [->|Hcc].
           -- rewrite upd_same. unfold okc. rewrite V. repeat split.
              ++ discriminate.
              ++ constructor; [intros [] | constructor].
@@ -189,7 +214,7 @@ Section SM.
              intros e H. apply in_or_app. now left.
         * intros e c Hec. apply in_app_or in Hec as [Hec|[Hec|[]]].
           -- destruct (Hb e c Hec) as [Hv [ids1 He]]. split; [assumption|].
-             destruct (N.eq_dec c c0) as [->|Hcc]; [exfalso; eauto|].
+             destruct (ct_eq_dec c c0) as [->|Hcc]; [exfalso; eauto|].
              rewrite !upd_other by assumption. eauto.
           -- inversion Hec; subst. split; [assumption|]. rewrite upd_same. eauto.
         * rewrite map_app. simpl. apply NoDup_snoc; [assumption|].
@@ -199,7 +224,7 @@ Section SM.
           -- apply Hd in Hec. lia.
           -- inversion Hec; subst. lia.
       + split; [|split; [|split; assumption]].
-        * intros c. destruct (N.eq_dec c c0) as [->|Hcc].
+        * intros c. destruct (ct_eq_dec c c0) as [->|Hcc].
           -- rewrite upd_same. unfold okc. rewrite V. repeat split.
              ++ discriminate.
              ++ constructor; [intros [] | constructor].
@@ -207,7 +232,7 @@ Section SM.
              ++ intros H. apply Hreg0 in H. now left.
           -- rewrite !upd_other by assumption. apply (okc_other _ _ _ _ _ _ (Ha c)); [intros i; now apply Hreg | auto].
         * intros e c Hec. destruct (Hb e c Hec) as [Hv [ids1 He]]. split; [assumption|].
-          destruct (N.eq_dec c c0) as [->|Hcc]; [exfalso; eauto|].
+          destruct (ct_eq_dec c c0) as [->|Hcc]; [exfalso; eauto|].
           rewrite !upd_other by assumption. eauto.
   Qed.
 
@@ -239,7 +264,7 @@ Section SM.
         destruct (set_del i0 ids) as [|j ids'] eqn:D; unfold Inv; cbn [entries cron next].
         * (* last id: the crontab goes away together with its cron entry *)
           split; [|split; [|split]].
-          -- intros c. destruct (N.eq_dec c c0) as [->|Hcc].
+          -- intros c. destruct (ct_eq_dec c c0) as [->|Hcc].
              ++ rewrite upd_same. simpl. intros i H. apply Hreg0 in H. exact H.
              ++ rewrite !upd_other by assumption. apply (okc_other _ _ _ _ _ _ (Ha c)); [intros i; now apply Hreg|].
                 intros e He. apply filter_In. split; [assumption|]. simpl.
@@ -257,13 +282,13 @@ Section SM.
                 ** subst eid. apply Hd in He. lia.
           -- intros e c Hec. apply filter_In in Hec as [Hec Hne']. simpl in Hne'.
              destruct (Hb e c Hec) as [Hv [ids1 He]]. split; [assumption|].
-             destruct (N.eq_dec c c0) as [->|Hcc].
+             destruct (ct_eq_dec c c0) as [->|Hcc].
              ++ rewrite E in He. inversion He; subst. rewrite N.eqb_refl in Hne'. discriminate.
              ++ rewrite !upd_other by assumption. eauto.
           -- now apply NoDup_map_fst_filter.
           -- intros e c Hec. apply filter_In in Hec as [Hec _]. exact (Hd e c Hec).
         * split; [|split; [|split; assumption]].
-          -- intros c. destruct (N.eq_dec c c0) as [->|Hcc].
+          -- intros c. destruct (ct_eq_dec c c0) as [->|Hcc].
              ++ rewrite upd_same. unfold okc. repeat split.
                 ** discriminate.
                 ** rewrite <- D. unfold set_del. now apply NoDup_filter.
@@ -272,7 +297,7 @@ Section SM.
                 ** exact Hcr.
              ++ rewrite upd_other by assumption. apply (okc_other _ _ _ _ _ _ (Ha c)); [intros i; now apply Hreg | auto].
           -- intros e c Hec. destruct (Hb e c Hec) as [Hv [ids1 He]]. split; [assumption|].
-             destruct (N.eq_dec c c0) as [->|Hcc].
+             destruct (ct_eq_dec c c0) as [->|Hcc].
              ++ rewrite E in He. inversion He; subst. rewrite upd_same. eauto.
              ++ rewrite upd_other by assumption. eauto.
       + (* unknown id for a known crontab *)
@@ -294,16 +319,16 @@ Section SM.
 
   (* ---------------------------------------------------------------- consequences *)
 
-  Lemma count_le_1 (c : N) (l : list (N * N)) :
+  Lemma count_le_1 (c : ct) (l : list (N * ct)) :
     NoDup (map fst l) ->
     (forall x y, In x l -> In y l -> snd x = c -> snd y = c -> fst x = fst y) ->
-    (length (filter (fun e => N.eqb (snd e) c) l) <= 1)%nat.
+    (length (filter (fun e => ct_eqb (snd e) c) l) <= 1)%nat.
   Proof.
     induction l as [|x l IH]; simpl; intros Hn Hs; [lia|].
     inversion Hn as [|? ? Hx Hl]; subst.
-    destruct (N.eqb (snd x) c) eqn:Ex.
-    - apply N.eqb_eq in Ex. rewrite filter_all_false; [simpl; lia|].
-      intros y Hy. destruct (N.eqb (snd y) c) eqn:Ey; [|reflexivity]. apply N.eqb_eq in Ey.
+    destruct (ct_eqb (snd x) c) eqn:Ex.
+    - apply ct_eqb_eq in Ex. rewrite filter_all_false; [simpl; lia|].
+      intros y Hy. destruct (ct_eqb (snd y) c) eqn:Ey; [|reflexivity]. apply ct_eqb_eq in Ey.
       exfalso. apply Hx. rewrite (Hs x y); auto. now apply in_map.
     - apply IH; [assumption|]. intros a b Ha Hb. apply Hs; now right.
   Qed.
@@ -336,11 +361,11 @@ Section SM.
     destruct (valid c && has_binding c reg) eqn:B.
     - apply andb_true_iff in B as [Hv Hb]. apply has_binding_In in Hb.
       destruct (proj2 Hrc (conj Hv Hb)) as [e He].
-      assert (Hin : In (e, c) (filter (fun e0 : N * N => N.eqb (snd e0) c) (cron s))).
-      { apply filter_In. split; [assumption | apply N.eqb_refl]. }
-      destruct (filter (fun e0 : N * N => N.eqb (snd e0) c) (cron s)); [contradiction | simpl in *; lia].
+      assert (Hin : In (e, c) (filter (fun e0 : N * ct => ct_eqb (snd e0) c) (cron s))).
+      { apply filter_In. split; [assumption | apply ct_eqb_refl]. }
+      destruct (filter (fun e0 : N * ct => ct_eqb (snd e0) c) (cron s)); [contradiction | simpl in *; lia].
     - rewrite filter_all_false; [reflexivity|]. intros [e c'] He. simpl.
-      destruct (N.eqb c' c) eqn:Ec; [|reflexivity]. apply N.eqb_eq in Ec. subst c'. exfalso.
+      destruct (ct_eqb c' c) eqn:Ec; [|reflexivity]. apply ct_eqb_eq in Ec. subst c'. exfalso.
       destruct (proj1 Hrc (ex_intro _ e He)) as [Hv Hb]. apply has_binding_In in Hb.
       rewrite Hv, Hb in B. discriminate.
   Qed.
@@ -461,14 +486,14 @@ Lemma handle_event_links bs e c : handle_event c (links_of bs e) = expected_info
 Proof.
   unfold handle_event, expected_infos, links_of. destruct e; [|reflexivity].
   induction bs as [|b bs IH]; simpl; [reflexivity|].
-  destruct (N.eqb (b_crontab b) c); simpl; now rewrite IH.
+  destruct (ct_eqb (b_crontab b) c); simpl; now rewrite IH.
 Qed.
 
 Lemma can_handle_links bs e c : can_handle c (links_of bs e) = negb (is_nil (expected_infos bs e c)).
 Proof.
   unfold can_handle, expected_infos, links_of. destruct e; [|reflexivity].
   induction bs as [|b bs IH]; simpl; [reflexivity|].
-  destruct (N.eqb (b_crontab b) c); simpl; [reflexivity | exact IH].
+  destruct (ct_eqb (b_crontab b) c); simpl; [reflexivity | exact IH].
 Qed.
 
 Lemma ns_eqb_refl l : ns_eqb l l = true.
@@ -479,7 +504,7 @@ Lemma is_perm_refl l : is_perm l l = true.
 Proof. induction l as [|x l IH]; [reflexivity|]. simpl. now rewrite info_eqb_refl. Qed.
 
 (* one controller, any sequence of Enable (true) / Disable (false) calls *)
-Definition ctl_step (valid : N -> bool) (bs : list binding) (st : links * sm) (e : bool) : links * sm :=
+Definition ctl_step (valid : ct -> bool) (bs : list binding) (st : links * sm) (e : bool) : links * sm :=
   if e then enable valid bs st else disable bs st.
 
 Lemma last_cons_default A (l : list A) : forall x d1 d2, last (x :: l) d1 = last (x :: l) d2.
@@ -505,7 +530,7 @@ Lemma fire_exactly_bindings valid bs calls s0 c h :
   NoDup (map b_id bs) ->
   let m := fst (fold_left (ctl_step valid bs) calls ([], s0)) in
   let enabled := last calls false in
-  let fired := filter (fun b => N.eqb (b_crontab b) c) bs in
+  let fired := filter (fun b => ct_eqb (b_crontab b) c) bs in
   Permutation (handle_event c m) (if enabled then map info_of_binding fired else [])
   /\ can_handle c m = (if enabled then negb (is_nil fired) else false)
   /\ Permutation (map (task_of_info h) (handle_event c m))
@@ -517,7 +542,7 @@ Proof.
   intros Hn. cbv zeta. rewrite ctl_links0 by assumption. rewrite handle_event_links, can_handle_links.
   unfold expected_infos. destruct (last calls false).
   - split; [apply Permutation_refl|]. split.
-    + induction (filter (fun b => N.eqb (b_crontab b) c) bs); reflexivity.
+    + induction (filter (fun b => ct_eqb (b_crontab b) c) bs); reflexivity.
     + rewrite map_map. apply Permutation_refl.
   - repeat split; constructor.
 Qed.
@@ -559,10 +584,193 @@ Lemma check_fire_ok c hooks : forall en ls,
 Proof.
   induction hooks as [|bs hr IH]; intros [|e er] [|m lr] H; simpl in H; try contradiction; [reflexivity|].
   destruct H as [H1 H2]. cbn [map check_fire]. rewrite (IH _ _ H2), andb_true_r.
-  unfold check_hook. destruct (nodupb (map b_id bs)) eqn:Nd; [|reflexivity].
+  unfold check_hook, check_answer. destruct (nodupb (map b_id bs)) eqn:Nd; [|reflexivity].
   apply nodupb_NoDup in Nd. rewrite (H1 Nd). cbn [fst snd].
   rewrite can_handle_links, handle_event_links, is_perm_refl, Bool.eqb_reflx. reflexivity.
 Qed.
+
+
+(* ------------------------------------------------------------------ the firing path *)
+
+(* HandleScheduleEvent asks CanHandleEvent first; HandleEvent would have answered nothing *)
+Lemma handle_event_cannot c m : can_handle c m = false -> handle_event c m = [].
+Proof.
+  unfold can_handle, handle_event. intros H. rewrite filter_all_false; [reflexivity|].
+  intros p Hp. destruct (ct_eqb (l_crontab (snd p)) c) eqn:E; [|reflexivity].
+  assert (X : existsb (fun p0 => ct_eqb (l_crontab (snd p0)) c) m = true)
+    by (apply existsb_exists; eauto).
+  rewrite X in H. discriminate.
+Qed.
+
+Lemma dispatch_hook_eq c m : dispatch_hook c m = (can_handle c m, handle_event c m).
+Proof.
+  unfold dispatch_hook. destruct (can_handle c m) eqn:E; [reflexivity|].
+  now rewrite handle_event_cannot.
+Qed.
+
+Lemma dispatch_eq c ls : dispatch c ls = map (fun m => (can_handle c m, handle_event c m)) ls.
+Proof. unfold dispatch. apply map_ext. intros m. apply dispatch_hook_eq. Qed.
+
+Lemma tick_hook_eq cs m :
+  tick_hook cs m = (existsb (fun c => can_handle c m) cs, flat_map (fun c => handle_event c m) cs).
+Proof.
+  unfold tick_hook. f_equal. induction cs as [|c cs IH]; [reflexivity|].
+  cbn [flat_map]. now rewrite IH, dispatch_hook_eq.
+Qed.
+
+(* multiset comparison is complete for permutations *)
+Lemma info_eqb_eq x y : info_eqb x y = true <-> x = y.
+Proof.
+  split; [|intros ->; apply info_eqb_refl].
+  destruct x, y. unfold info_eqb. cbn.
+  rewrite !andb_true_iff. intros [[[[[[[[H1 H2] H3] H4] H5] H6] H7] H8] H9].
+  apply N.eqb_eq in H1, H2, H5, H6, H9. apply Bool.eqb_prop in H3, H7.
+  apply (list_eqb_eq N.eqb N_eqb_iff) in H4, H8. now subst.
+Qed.
+
+Lemma remove_first_In x l : In x l ->
+  exists l1 l2, l = l1 ++ x :: l2 /\ remove_first x l = Some (l1 ++ l2).
+Proof.
+  induction l as [|y l IH]; [contradiction|]. intros Hin. cbn [remove_first].
+  destruct (info_eqb x y) eqn:E.
+  - apply info_eqb_eq in E. subst y. exists [], l. split; reflexivity.
+  - destruct Hin as [->|Hin]; [rewrite info_eqb_refl in E; discriminate|].
+    destruct (IH Hin) as (l1 & l2 & -> & R). rewrite R. exists (y :: l1), l2. split; reflexivity.
+Qed.
+
+Lemma is_perm_complete a : forall b, Permutation a b -> is_perm a b = true.
+Proof.
+  induction a as [|x a IH]; intros b Hp.
+  - apply Permutation_nil in Hp. now subst.
+  - cbn [is_perm].
+    assert (Hin : In x b) by (eapply Permutation_in; [exact Hp | now left]).
+    destruct (remove_first_In x b Hin) as (l1 & l2 & -> & R). rewrite R.
+    apply IH. eapply Permutation_cons_app_inv. exact Hp.
+Qed.
+
+(* the strings [cs] arrive, each at most once: what is handled of [bs] *)
+Lemma filter_or_perm A (p q : A -> bool) l :
+  (forall x, In x l -> p x = true -> q x = false) ->
+  Permutation (filter p l ++ filter q l) (filter (fun x => p x || q x) l).
+Proof.
+  induction l as [|x l IH]; intros H; [constructor|]. cbn [filter].
+  assert (IH' : Permutation (filter p l ++ filter q l) (filter (fun x => p x || q x) l)).
+  { apply IH. intros y Hy. apply H. now right. }
+  destruct (p x) eqn:Px.
+  - rewrite (H x (or_introl eq_refl) Px). cbn [orb app]. now constructor.
+  - cbn [orb]. destruct (q x).
+    + apply Permutation_sym, Permutation_cons_app, Permutation_sym, IH'.
+    + exact IH'.
+Qed.
+
+Lemma flat_filter_perm (bs : list binding) cs : NoDup cs ->
+  Permutation (flat_map (fun c => filter (fun b => ct_eqb (b_crontab b) c) bs) cs)
+              (filter (fun b => mem_ct (b_crontab b) cs) bs).
+Proof.
+  induction 1 as [|c cs Hc Hn IH]; cbn [flat_map].
+  - rewrite filter_all_false; [constructor | reflexivity].
+  - eapply Permutation_trans; [apply Permutation_app_head, IH|].
+    eapply Permutation_trans; [apply filter_or_perm|].
+    + intros b _ E. apply ct_eqb_eq in E. subst c.
+      destruct (mem_ct (b_crontab b) cs) eqn:M; [|reflexivity]. apply mem_ct_In in M. contradiction.
+    + assert (X : forall b, ct_eqb (b_crontab b) c || mem_ct (b_crontab b) cs = mem_ct (b_crontab b) (c :: cs)).
+      { intros b. unfold mem_ct. cbn [existsb]. reflexivity. }
+      rewrite (filter_ext _ _ X). apply Permutation_refl.
+Qed.
+
+Definition count_ct (c : ct) (cs : list ct) : nat := length (filter (fun x => ct_eqb x c) cs).
+
+Lemma count_ct_map c (cr : list (N * ct)) : count_ct c (map snd cr) = count_fires c cr.
+Proof.
+  unfold count_ct, count_fires. induction cr as [|e cr IH]; [reflexivity|]. cbn [map filter].
+  destruct (ct_eqb (snd e) c); cbn [length]; now rewrite IH.
+Qed.
+
+Lemma count_ct_pos c cs : In c cs <-> (1 <= count_ct c cs)%nat.
+Proof.
+  unfold count_ct. split.
+  - intros H. assert (X : In c (filter (fun x => ct_eqb x c) cs))
+      by (apply filter_In; split; [assumption | apply ct_eqb_refl]).
+    destruct (filter (fun x => ct_eqb x c) cs); [contradiction | simpl; lia].
+  - intros H. destruct (filter (fun x => ct_eqb x c) cs) as [|y l] eqn:F; [simpl in H; lia|].
+    assert (X : In y (filter (fun x => ct_eqb x c) cs)) by (rewrite F; now left).
+    apply filter_In in X as [X1 X2]. apply ct_eqb_eq in X2. now subst.
+Qed.
+
+Lemma count_ct_nodup cs : (forall c, (count_ct c cs <= 1)%nat) -> NoDup cs.
+Proof.
+  induction cs as [|x cs IH]; intros H; constructor.
+  - intros Hin. apply count_ct_pos in Hin. specialize (H x). unfold count_ct in *. cbn [filter] in H.
+    rewrite ct_eqb_refl in H. cbn [length] in H. lia.
+  - apply IH. intros c. specialize (H c). unfold count_ct in *. cbn [filter] in H.
+    destruct (ct_eqb x c); cbn [length] in H; lia.
+Qed.
+
+(* if every string arrives once when [g] says so and never otherwise, the bindings
+   handled are those whose crontab satisfies [g], each once *)
+Lemma round_perm (g : ct -> bool) bs cs :
+  (forall c, count_ct c cs = if g c then 1 else 0)%nat ->
+  Permutation (flat_map (fun c => filter (fun b => ct_eqb (b_crontab b) c) bs) cs)
+              (filter (fun b => g (b_crontab b)) bs)
+  /\ forall c, mem_ct c cs = g c.
+Proof.
+  intros H.
+  assert (M : forall c, mem_ct c cs = g c).
+  { intros c. apply Bool.eq_iff_eq_true. rewrite mem_ct_In, count_ct_pos, H. destruct (g c); split; intros; try lia; auto; discriminate. }
+  split; [|exact M].
+  rewrite <- (filter_ext (fun b => mem_ct (b_crontab b) cs) (fun b => g (b_crontab b)) (fun b => M (b_crontab b))).
+  apply flat_filter_perm, count_ct_nodup. intros c. rewrite H. destruct (g c); lia.
+Qed.
+
+Lemma flat_map_map_commute A B C (f : B -> C) (k : A -> list B) l :
+  flat_map (fun x => map f (k x)) l = map f (flat_map k l).
+Proof. induction l as [|x l IH]; [reflexivity|]. cbn [flat_map]. now rewrite map_app, IH. Qed.
+
+Lemma tick_hook_links valid reg bs e cs :
+  (forall c, count_ct c cs = if fires valid reg c then 1 else 0)%nat ->
+  Permutation (snd (tick_hook cs (links_of bs e))) (expected_round valid reg bs e)
+  /\ fst (tick_hook cs (links_of bs e)) = negb (is_nil (expected_round valid reg bs e)).
+Proof.
+  intros H. rewrite tick_hook_eq. cbn [fst snd].
+  destruct (round_perm (fires valid reg) bs cs H) as [Hp Hm].
+  destruct e.
+  - split.
+    + rewrite (flat_map_ext _ _ (fun c => handle_event_links bs true c)).
+      unfold expected_infos, expected_round. rewrite flat_map_map_commute. now apply Permutation_map.
+    + unfold expected_round. apply Bool.eq_iff_eq_true. rewrite existsb_exists. split.
+      * intros [c [Hc Hcan]]. rewrite can_handle_links in Hcan. unfold expected_infos in Hcan.
+        destruct (filter (fun b => ct_eqb (b_crontab b) c) bs) as [|b l] eqn:F; [discriminate|].
+        assert (X : In b (filter (fun b => ct_eqb (b_crontab b) c) bs)) by (rewrite F; now left).
+        apply filter_In in X as [X1 X2]. apply ct_eqb_eq in X2.
+        assert (Y : In b (filter (fun b => fires valid reg (b_crontab b)) bs)).
+        { apply filter_In. split; [assumption|]. rewrite <- Hm, X2. now apply mem_ct_In. }
+        destruct (filter (fun b => fires valid reg (b_crontab b)) bs); [contradiction | reflexivity].
+      * intros Hne. destruct (filter (fun b => fires valid reg (b_crontab b)) bs) as [|b l] eqn:F; [discriminate|].
+        assert (X : In b (filter (fun b => fires valid reg (b_crontab b)) bs)) by (rewrite F; now left).
+        apply filter_In in X as [X1 X2]. rewrite <- Hm in X2. apply mem_ct_In in X2.
+        exists (b_crontab b). split; [assumption|]. rewrite can_handle_links. unfold expected_infos.
+        assert (Y : In b (filter (fun b0 => ct_eqb (b_crontab b0) (b_crontab b)) bs))
+          by (apply filter_In; split; [assumption | apply ct_eqb_refl]).
+        destruct (filter (fun b0 => ct_eqb (b_crontab b0) (b_crontab b)) bs); [contradiction | reflexivity].
+  - unfold expected_round, links_of. clear. split.
+    + induction cs as [|c cs IH]; [constructor|]. exact IH.
+    + induction cs as [|c cs IH]; [reflexivity|]. exact IH.
+Qed.
+
+Lemma check_round_ok valid reg cs hooks : forall en ls,
+  (forall c, count_ct c cs = if fires valid reg c then 1 else 0)%nat ->
+  links_ok hooks en ls ->
+  check_round valid reg hooks en (tick_all cs ls) = true.
+Proof.
+  induction hooks as [|bs hr IH]; intros [|e er] [|m lr] Hc H; simpl in H; try contradiction; [reflexivity|].
+  destruct H as [H1 H2]. unfold tick_all. cbn [map check_round].
+  fold (tick_all cs lr). rewrite (IH _ _ Hc H2), andb_true_r.
+  unfold check_answer. destruct (nodupb (map b_id bs)) eqn:Nd; [|reflexivity].
+  apply nodupb_NoDup in Nd. rewrite (H1 Nd).
+  destruct (tick_hook_links valid reg bs e cs Hc) as [Hp Hf].
+  rewrite Hf, Bool.eqb_reflx. now apply is_perm_complete.
+Qed.
+
 
 Definition Rel (i : input) (s : sys) (st : spec_state) : Prop :=
   Inv (valid_of (i_invalid i)) (s_sm s) (fst st) /\ links_ok (i_hooks i) (snd st) (s_links s).
@@ -574,7 +782,7 @@ Proof. intros hooks. apply nth_overflow. Qed.
 Lemma step_rel i s st o :
   Rel i s st -> Rel i (fst (sys_step i s o)) (spec_step (i_hooks i) st o).
 Proof.
-  intros [HI HL]. unfold Rel, spec_step. destruct o as [c id|c id|h|h|c]; cbn [sys_step induced fst snd].
+  intros [HI HL]. unfold Rel, spec_step. destruct o as [c id|c id|h|h|c|n|]; cbn [sys_step induced fst snd].
   - split; [apply Inv_add, HI | exact HL].
   - split; [apply Inv_remove, HI | exact HL].
   - rewrite enable_split. cbn [fst snd s_sm s_links]. split.
@@ -585,6 +793,8 @@ Proof.
     + apply Inv_fold, HI.
     + apply links_ok_set; [exact HL|]. intros Hn.
       rewrite (links_ok_nth _ _ _ _ HL Hn). apply del_links_of.
+  - split; assumption.
+  - destruct (nth_error (cron (s_sm s)) (N.to_nat n)) as [[e c]|]; split; assumption.
   - split; assumption.
 Qed.
 
@@ -603,9 +813,17 @@ Proof.
   destruct (sys_step i s o) as [s' f] eqn:Es. cbn [fst] in HR'.
   rewrite (IH _ _ HR'), andb_true_r. destruct HR' as [HI' HL'].
   unfold observe. rewrite (check_cron_ok _ _ _ _ _ HI'). cbn [andb].
-  destruct o as [c id|c id|h|h|c]; try reflexivity.
-  cbn [sys_step] in Es. inversion Es; subst. cbn [o_fire].
-  apply check_fire_ok. exact HL'.
+  destruct o as [c id|c id|h|h|c|n|]; try reflexivity.
+  - cbn [sys_step] in Es. inversion Es; subst. cbn [o_fire].
+    apply check_fire_ok. exact HL'.
+  - cbn [sys_step] in Es. cbn [o_cron o_fire].
+    destruct (nth_error (cron (s_sm s)) (N.to_nat n)) as [[e c]|] eqn:En; inversion Es; subst; rewrite En.
+    + rewrite dispatch_eq. apply check_fire_ok. exact HL'.
+    + reflexivity.
+  - cbn [sys_step] in Es. inversion Es; subst. cbn [o_fire].
+    apply check_round_ok; [|exact HL'].
+    intros c. rewrite count_ct_map. change (count_fires c (cron (s_sm s'))) with (cron_count c (s_sm s')).
+    apply (inv_count_exact _ _ _ c HI').
 Qed.
 
 Lemma P_holds i : P i (run_model i) = true.
@@ -622,9 +840,10 @@ Lemma sys_sm_induced i : forall ops s,
 Proof.
   induction ops as [|o ops IH]; intros s; [reflexivity|].
   cbn [fold_left flat_map]. rewrite fold_left_app, IH. f_equal.
-  destruct o as [c id|c id|h|h|c]; cbn [sys_step induced fst s_sm fold_left sm_step]; try reflexivity.
+  destruct o as [c id|c id|h|h|c|n|]; cbn [sys_step induced fst s_sm fold_left sm_step]; try reflexivity.
   - rewrite enable_split. reflexivity.
   - rewrite (disable_split (valid_of (i_invalid i))). reflexivity.
+  - destruct (nth_error (cron (s_sm s)) (N.to_nat n)) as [[e c]|]; reflexivity.
 Qed.
 
 (* the registry is "added and not removed since": what one more operation does to it *)
@@ -660,3 +879,75 @@ Lemma entries_refine valid h c :
   | Some (_, ids) => ids <> [] /\ NoDup ids /\ forall i, In i ids <-> In (c, i) (registered h)
   end.
 Proof. apply (inv_entries valid), Inv_run. Qed.
+
+(* ------------------------------------------------------------------ crontab identity, firing rounds *)
+
+(* what a cron entry sends when it fires is the key it is filed under in Entries *)
+Lemma entry_sends_key valid h e c :
+  In (e, c) (cron (sm_run valid h)) ->
+  valid c = true /\ exists ids, entries (sm_run valid h) c = Some (e, ids).
+Proof. destruct (Inv_run valid h) as (_ & Hb & _). apply Hb. Qed.
+
+Lemma nodup_fst_fun A B (l : list (A * B)) e c c' :
+  NoDup (map fst l) -> In (e, c) l -> In (e, c') l -> c = c'.
+Proof.
+  induction l as [|p l IH]; intros Hn H1 H2; [contradiction|].
+  cbn [map] in Hn. inversion Hn as [|? ? Hp Hl]; subst.
+  destruct H1 as [->|H1], H2 as [E|H2].
+  - now inversion E.
+  - exfalso. apply Hp. cbn [fst]. change e with (fst (e, c')). now apply in_map.
+  - subst p. exfalso. apply Hp. cbn [fst]. change e with (fst (e, c)). now apply in_map.
+  - now apply IH.
+Qed.
+
+(* two different strings - be it two spellings of one schedule - that are both parsable
+   and both registered have two different cron entries, each sending its own string *)
+Lemma distinct_strings_fire_separately valid h c c' i i' :
+  c <> c' -> valid c = true -> valid c' = true ->
+  In (c, i) (registered h) -> In (c', i') (registered h) ->
+  exists e e', e <> e' /\ In (e, c) (cron (sm_run valid h)) /\ In (e', c') (cron (sm_run valid h)).
+Proof.
+  intros Hne Hv Hv' Hr Hr'.
+  destruct (proj1 (refcount valid h c)) as [_ H1]. destruct (proj1 (refcount valid h c')) as [_ H2].
+  destruct (H1 (conj Hv (ex_intro _ i Hr))) as [e He]. destruct (H2 (conj Hv' (ex_intro _ i' Hr'))) as [e' He'].
+  exists e, e'. split; [|split; assumption].
+  intros ->. apply Hne. destruct (single_entry valid h c) as [_ Hn].
+  eapply nodup_fst_fun; eassumption.
+Qed.
+
+Lemma rel_fold i ops : forall s st, Rel i s st ->
+  Rel i (fold_left (fun s o => fst (sys_step i s o)) ops s) (fold_left (spec_step (i_hooks i)) ops st).
+Proof. induction ops as [|o ops IH]; intros s st H; [exact H|]. cbn [fold_left]. apply IH, step_rel, H. Qed.
+
+Lemma rel_init i : Rel i (sys_init i) (spec_init (i_hooks i)).
+Proof. split; [apply Inv_init | apply links_ok_init]. Qed.
+
+(* after ANY sequence of operations: when every registered cron entry fires once, hook h
+   gets exactly one task per binding of h that is enabled and whose crontab string is
+   parsable and still has a registered id; no other task *)
+Lemma round_tasks i ops h :
+  let s := fold_left (fun s o => fst (sys_step i s o)) ops (sys_init i) in
+  let st := fold_left (spec_step (i_hooks i)) ops (spec_init (i_hooks i)) in
+  let bs := nth h (i_hooks i) [] in
+  NoDup (map b_id bs) ->
+  Permutation
+    (map (task_of_info (N.of_nat h)) (snd (tick_hook (map snd (cron (s_sm s))) (nth h (s_links s) []))))
+    (if nth h (snd st) false
+     then map (task_of_binding (N.of_nat h))
+              (filter (fun b => fires (valid_of (i_invalid i)) (fst st) (b_crontab b)) bs)
+     else []).
+Proof.
+  cbv zeta. intros Hn.
+  destruct (rel_fold i ops _ _ (rel_init i)) as [HI HL].
+  rewrite (links_ok_nth _ _ _ _ HL Hn).
+  set (s := fold_left (fun s o => fst (sys_step i s o)) ops (sys_init i)) in *.
+  set (st := fold_left (spec_step (i_hooks i)) ops (spec_init (i_hooks i))) in *.
+  assert (Hc : forall c, count_ct c (map snd (cron (s_sm s)))
+                         = if fires (valid_of (i_invalid i)) (fst st) c then 1%nat else 0%nat).
+  { intros c. rewrite count_ct_map. change (count_fires c (cron (s_sm s))) with (cron_count c (s_sm s)).
+    apply (inv_count_exact _ _ _ c HI). }
+  destruct (tick_hook_links (valid_of (i_invalid i)) (fst st) (nth h (i_hooks i) []) (nth h (snd st) false) _ Hc) as [Hp _].
+  eapply Permutation_trans; [apply Permutation_map, Hp|].
+  unfold expected_round. destruct (nth h (snd st) false); [|constructor].
+  rewrite map_map. apply Permutation_refl.
+Qed.
